@@ -85,4 +85,17 @@ def normName (n : Option (List Char)) : Option (List Char) :=
       | c :: cs => if isWsp c then (if prevWs then go true cs else ' ' :: go true cs) else c :: go false cs
     some (go false t)
 
+/-! ### the address class of `Proofs/Peg.lean`, decidably
+
+`local@domain` with both sides dot-atoms of the grammar (an `atext` run, then `.atext+` groups) and not starting with
+a white-space character.  `Proofs/Peg.lean` proves that every mailbox with such an address — whatever its name —
+survives Display followed by parsing; the correspondence check evaluates this on every real mailbox. -/
+def dtailB : Nat → List Char → Bool
+  | _, [] => true
+  | 0, _ :: _ => false
+  | f + 1, c :: cs => c == '.' && !(cs.takeWhile isAtext).isEmpty && dtailB f (cs.dropWhile isAtext)
+def dotAtomB (u : List Char) : Bool := !(u.takeWhile isAtext).isEmpty && dtailB u.length (u.dropWhile isAtext)
+def addrClassB (u d : List Char) : Bool :=
+  dotAtomB u && dotAtomB d && (match u with | x :: _ => !isUWs x | [] => false)
+
 end LV.Mailbox
